@@ -1,7 +1,7 @@
 //! C09: metadata signed by the library verifies after a trip through the wire format; and only
 //! under the right key, unaltered, with the right scheme.
 use crate::c04::{keyid_hex, Entry};
-use crate::meta::{gen_layout, gen_link, key_pool, KeyInfo};
+use crate::meta::{gen_layout, gen_link, key_pool_all_sizes, KeyInfo};
 use crate::proto::{guarded, hex, Sink};
 use crate::rng::Rng;
 use crate::Cfg;
@@ -25,7 +25,7 @@ fn vblock_op(t: u32, auth: &[&KeyInfo], entries: &[Entry]) -> String {
 pub fn run(cfg: &Cfg) {
     let mut sink = Sink::new(&cfg.out);
     let mut r = Rng::new(cfg.seed);
-    let pool = key_pool(2);
+    let pool = key_pool_all_sizes(2);
     let n = if cfg.thorough { 2500 } else { 220 };
     for i in 0..n {
         let meta = if i % 2 == 0 { MetadataWrapper::Layout(gen_layout(&mut r, &pool)) } else { MetadataWrapper::Link(gen_link(&mut r, None)) };
